@@ -73,7 +73,7 @@ PROPS = {
     },
     "C07": {
         "title": "The RESP parser is total: no input panics, aborts or mis-reads a number",
-        "rules": [k6.n1_parser_total, k5.r1_bounded_recursion, k1.w4_no_abort],
+        "rules": [k6.n1_parser_total, k5.r1_bounded_recursion, k1.w4_no_abort, k3.s10_check_parse_readers, k4.v2_parse_frame],
         "decides": "every panic obligation of the parser slice (bounds, overflow, Buf preconditions, slice ranges, allocation size, unwrap/panic) discharged by abstract interpretation for every buffer and cursor position; bounded recursion depth (ranking argument on every call-graph cycle); no process-terminating call",
         "not_decided": "digit-by-digit value correctness of accepted numbers",
     },
@@ -85,7 +85,7 @@ PROPS = {
     },
     "C09": {
         "title": "With sync=always an acknowledged write survives power loss, merges included",
-        "rules": [k2.p2_sync_always, k2m.p5_merge_outputs_before_unlink, k5.ghint_hint_validation],
+        "rules": [k2.p2_sync_always, k2.p19_sync_chain, k2m.p5_merge_outputs_before_unlink, k5.ghint_hint_validation],
         "decides": "Always ⇒ every successful append is followed by a checked fsync of the same file before Ok and before any rollover; LogWriter::sync reaches File::sync_all; merge flushes+fsyncs data AND hint outputs (checked) before replacing them, before the first unlink and before Ok; hint entries are admitted only if within the data file",
         "not_decided": "the storage stack below fsync; the power-loss model itself",
     },
@@ -140,13 +140,13 @@ PROPS = {
     },
     "C18": {
         "title": "Background merge and sync follow the configured policy",
-        "rules": [k4.v4_never_policy, k2s.p15_interval_loops, k1.w6_merge_sync_entry, k3.s5_trigger_threshold_roles],
+        "rules": [k4.v4_never_policy, k2s.p15_interval_loops, k2.p19_sync_chain, k1.w6_merge_sync_entry, k3.s5_trigger_threshold_roles],
         "decides": "Never ⇒ no path to merge; merge only behind can_merge()==true; triggers decide whether, thresholds decide which, like compared with like in the selecting direction; each tick of the sync loop reaches the fsync; periodic sync exactly under IntervalMs with its period",
         "not_decided": "timing ('within one interval plus jitter')",
     },
     "C19": {
         "title": "Per-file live/dead accounting always matches the files' real contents",
-        "rules": [k3.s3_displaced_accounting, k3.s2_live_vs_recovery],
+        "rules": [k3.s3_displaced_accounting, k3.s2_live_vs_recovery, k2m.s7_s8_merge_sets],
         "decides": "every displaced index entry is routed to overwrite(prev.len) on the file it lived in; every append is counted on the file it went to (before rollover) with the appended length; the rebuild counts like the live path",
         "not_decided": "equality with ground truth over histories; underflow of live_keys",
     },
